@@ -107,6 +107,7 @@ def register(E):
         # the text is shown as given; unencodable characters (lone surrogates) escaped -- the identity on encodable text
         ensures=['RESOURCE_IS_TEXT("tb_str", traceback_string)', 'RESOURCE_IS("all_mon_files", monitored_files)',
                  'ROUTES_COVER_ALL_PATHS()'],
+        trace_ensures=True,
         returns=TObj('App'), prop=['C20']))
 
     E.add_contract(Contract(
@@ -117,3 +118,42 @@ def register(E):
         ensures=['keys(result) == set(["mon_files", "all_mon_files", "parsed_err", "last_line", "tb_str"])',
                  'result["tb_str"] is tb_str', 'result["mon_files"] is mon_files', 'result["all_mon_files"] is all_mon_files'],
         returns=TDict(TStr, TObj()), prop=['C20']))
+
+
+def verify_serve_error_app(pc, E):
+    """run_simple.serve_error_app (the closure the reloader calls after a failed start-up): the failsafe application is
+    built from exactly the error text and the monitored files it was handed."""
+    import ast as _ast
+    from pyvc.run import Item
+    mod = E.repo.module('clastic.server')
+    outer = mod.funcs.get('run_simple')
+    inner = None
+    if outer is not None:
+        for n in _ast.walk(outer):
+            if isinstance(n, _ast.FunctionDef) and n.name == 'serve_error_app':
+                inner = n
+    if inner is None:
+        pc.undecided.append(('run_simple.serve_error_app is no longer a nested def', None, 'clastic.server.run_simple'))
+        return
+
+    def setup(E_, ctx, fr):
+        fr.locals['hostname'] = TStr.fresh(ctx, 'hostname')
+        fr.locals['port'] = TInt.fresh(ctx, 'port')
+        fr.locals['extra_files'] = TObj().fresh(ctx, 'extra_files')
+    c = Contract('clastic.server.run_simple.<serve_error_app>',
+                 params={'tb_str': TObj(), 'monitored_files': TObj()}, setup=setup,
+                 at_call={'clastic.flaw.create_app': ['len(_args) == 2 and len(_kw) == 0 and _args[0] is tb_str and _args[1] is monitored_files']},
+                 ensures=['CREATED_ONE_FAILSAFE_APP()'], may_raise_any=True, returns=TObj(), prop=['C20'])
+
+    @E.spec('CREATED_ONE_FAILSAFE_APP')
+    def CREATED_ONE_FAILSAFE_APP(I, ctx):
+        return VBool(len([e for e in ctx.trace if e[0] == 'contract' and e[1] == 'clastic.flaw.create_app']) == 1)
+    res = E.verify_node(c, mod, inner)
+    pc.functions.append({'function': 'run_simple.serve_error_app (nested def, extracted by name)', 'file': 'clastic/server.py',
+                         'lines': [inner.lineno, inner.end_lineno], 'sha1': None, 'paths': res.paths,
+                         'obligation_instances': len(res.obligations)})
+    for why, line in res.undecided:
+        pc.undecided.append((why, line, 'serve_error_app'))
+    for o in res.obligations:
+        pc.add_item(Item(o.clause.replace('server.run_simple.<serve_error_app>', 'C20.K/serve_error_app'),
+                         'K', o.pc, o.goal, o.func, o.lineno, o.note, dict(o.extra, trail=o.trail)))
